@@ -47,7 +47,7 @@ var c09PanicExceptions = map[string]string{
 var c09IndexExceptions = map[string]string{}
 
 func checkC09(w *World, r *Report) {
-	r.Explanation = "Structural clause of C09: over every module function reachable (repaired VTA call graph) from CheckTx, DeliverTx and Query — and from BeginBlock and EndBlock, which later process what accepted transactions stored —, (P-1) no explicit panic, always-panicking callee or Must* helper is reachable except a listed construct with its invariant; (P-2) every payload type assertion without comma-ok sits where the set of possible transaction types (dataflow over the tx-type tests, interprocedural) maps only to the payload type that Trx.fromProto allocates; (P-3) every slice/index expression on a slice whose bounds are not compile-time safe has a dominating length guard or clamp idiom; (P-4) results of module functions that return nil together with an error / may return nil are not dereferenced where the error is known non-nil or without a nil test; (P-5) every integer division by a non-constant has a dominating non-zero guard or a listed invariant; (P-6) every pointer-typed field of Trx / a payload type that the input paths dereference without a nil test is set non-nil on every success path of every function on the input paths that allocates such an object (directly or through a decoder call that establishes it, interprocedurally)."
+	r.Explanation = "Structural clause of C09: over every module function reachable (repaired VTA call graph) from CheckTx, DeliverTx and Query — and from BeginBlock and EndBlock, which later process what accepted transactions stored —, (P-1) no explicit panic, always-panicking callee or Must* helper is reachable except a listed construct with its invariant; (P-2) every payload type assertion without comma-ok sits where the set of possible transaction types (dataflow over the tx-type tests, interprocedural) maps only to the payload type that Trx.fromProto allocates; (P-3) every slice/index expression on a slice whose bounds are not compile-time safe has a dominating length guard or clamp idiom; (P-4) results of module functions that return nil together with an error / may return nil are not dereferenced where the error is known non-nil or without a nil test; (P-5) every integer division by a non-constant has a dominating non-zero guard or a listed invariant; (P-7) every string stored in a ledger item (protobuf `string` fields must be valid UTF-8 or the encoder fails and Commit halts the node) originates from constants, fields or transaction text handed on unchanged — not from a conversion of bytes or a library routine that can yield arbitrary bytes; (P-6) every pointer-typed field of Trx / a payload type that the input paths dereference without a nil test is set non-nil on every success path of every function on the input paths that allocates such an object (directly or through a decoder call that establishes it, interprocedurally)."
 	r.NotCovered = "whether an error a controller returns from BeginBlock/EndBlock (which RigoApp turns into a deliberate fail-stop panic) can be provoked by stored transaction data; panics inside dependencies on hostile input (protobuf, rlp, iavl, go-ethereum, tendermint rpc core used by vm_call); resource exhaustion; nil dereferences of struct fields other than those of the decoded request objects (P-6) that are nil by construction rather than by a returned nil; guards whose removal cannot cause a panic (address/hash length checks: every consumer clamps) are deliberately not obligations."
 
 	roots := w.entrySet("CheckTx", "DeliverTx", "Query", "BeginBlock", "EndBlock")
@@ -68,6 +68,7 @@ func checkC09(w *World, r *Report) {
 	p4(w, r, reach, scope)
 	p5(w, r, reach, scope)
 	p6(w, r, reach, scope)
+	p7(w, r, scope)
 
 	r.Floor("P-1", 2, "explicit panics / Must* on the input paths, each with its exception")
 	r.Floor("P-2", 3, "payload assertions without comma-ok")
@@ -1585,5 +1586,108 @@ func p5(w *World, r *Report, reach *Reach, scope []*ssa.Function) {
 				}
 			}
 		}
+	}
+}
+
+// ---- P-7: text stored in a ledger item must be encodable
+
+// p7: the ledger encodes items with protobuf, whose `string` fields must hold
+// valid UTF-8 — Marshal fails otherwise, and a failing Commit halts the node. Text
+// arriving in a transaction was validated by the protobuf decoder; a string made
+// from bytes or by an un-escaping routine need not be valid. Every value stored
+// in a string field of an item type is traced to its origins (through setters,
+// parameters and helpers, up to four call levels): constants, fields and text
+// handed on unchanged are fine, a conversion from bytes or a library call that can
+// produce arbitrary bytes is not.
+func p7(w *World, r *Report, scope []*ssa.Function) {
+	inScope := map[*ssa.Function]bool{}
+	for _, f := range scope {
+		inScope[f] = true
+	}
+	type origin struct {
+		bad  string
+		site string
+	}
+	var trace func(v ssa.Value, fn *ssa.Function, depth int, seen map[ssa.Value]bool) []origin
+	trace = func(v ssa.Value, fn *ssa.Function, depth int, seen map[ssa.Value]bool) []origin {
+		var out []origin
+		var roots []rootVal
+		w.rootsOf(v, &vframe{fn: fn}, 0, &roots, map[ssa.Value]bool{})
+		for _, rt := range roots {
+			if seen[rt.v] {
+				continue
+			}
+			seen[rt.v] = true
+			switch x := rt.v.(type) {
+			case *ssa.Const:
+			case *ssa.Parameter:
+				if depth >= 4 || x.Parent() == nil {
+					continue
+				}
+				idx := paramIndexIn(x.Parent(), x)
+				for _, cs := range w.Callers(x.Parent()) {
+					if !inScope[cs.Caller] {
+						continue
+					}
+					args := cs.Site.Common().Args
+					if cs.Site.Common().IsInvoke() {
+						args = append([]ssa.Value{cs.Site.Common().Value}, args...)
+					}
+					if idx >= 0 && idx < len(args) {
+						out = append(out, trace(args[idx], cs.Caller, depth+1, seen)...)
+					}
+				}
+			case *ssa.Convert:
+				if bt, ok := x.X.Type().Underlying().(*types.Slice); ok {
+					_ = bt
+					out = append(out, origin{"a conversion of bytes to string", site(w, x)})
+				}
+			case *ssa.Call, *ssa.Extract:
+				var call *ssa.Call
+				if c, isC := x.(*ssa.Call); isC {
+					call = c
+				} else if c, isC := x.(*ssa.Extract).Tuple.(*ssa.Call); isC {
+					call = c
+				}
+				if call == nil {
+					continue
+				}
+				cal := call.Common().StaticCallee()
+				if cal == nil || w.InModule(cal) || cal.Pkg == nil {
+					continue
+				}
+				switch pth := cal.Pkg.Pkg.Path(); {
+				case pth == "strings" || pth == "strconv" || pth == "fmt" || pth == "unicode/utf8":
+				default:
+					out = append(out, origin{"the result of " + pth + "." + cal.Name(), site(w, call)})
+				}
+			}
+		}
+		return out
+	}
+	n := 0
+	for _, fn := range scope {
+		for _, fs := range w.fieldStores(fn) {
+			if fs.Owner == nil || fs.Owner.Obj().Pkg() == nil || !isItemTypeName(fs.Owner.Obj().Pkg().Path(), fs.Owner.Obj().Name()) {
+				continue
+			}
+			if bt, ok := fs.Field.Type().Underlying().(*types.Basic); !ok || bt.Info()&types.IsString == 0 {
+				continue
+			}
+			if fn.Signature.Recv() != nil && itemDecoders[fn.Name()] {
+				continue
+			}
+			n++
+			key := "text:" + w.FName(fn) + ":" + fs.Owner.Obj().Name() + "." + fs.Field.Name()
+			bad := trace(fs.Val, fn, 0, map[ssa.Value]bool{})
+			if len(bad) == 0 {
+				r.OK("P-7", key, "the text stored comes from constants, fields and transaction text handed on unchanged", site(w, fs.In))
+			} else {
+				r.Violate("P-7", key, "a string that need not be valid UTF-8 ("+bad[0].bad+") can be stored in a ledger item; the protobuf encoder rejects it and the failing Commit halts the node", nil, site(w, fs.In), bad[0].site)
+			}
+		}
+	}
+	if n == 0 {
+		r.Undecided("P-7", "text", "no store to a string field of a ledger item found on the input paths")
 	}
 }
